@@ -52,35 +52,56 @@ pub fn identity_with(name: &str, bits: u32, duration_days: u32) -> (X509, Privat
             return (c, k);
         }
     }
-    let data = X509Data {
-        key_size: bits,
-        common_name: name.to_string(),
-        organization: "verif".into(),
-        organizational_unit: "verif".into(),
-        country: "IE".into(),
-        state: "Dublin".into(),
-        alt_host_names: vec![
-            format!("urn:verif:{}", name),
-            "localhost".into(),
-            "127.0.0.1".into(),
-        ],
-        certificate_duration_days: duration_days,
-    };
-    let (cert, key) = X509::cert_and_pkey(&data).expect("cert generation");
-    let tmpc = dir.join(format!(".tmp_{}_{}.der", std::process::id(), name));
-    let tmpk = dir.join(format!(".tmp_{}_{}.pem", std::process::id(), name));
-    std::fs::write(&tmpk, key.private_key_to_pem().unwrap()).unwrap();
-    std::fs::write(&tmpc, cert.to_der().unwrap()).unwrap();
-    // key first, so a visible cert always has its key
-    let _ = std::fs::rename(&tmpk, &key_path);
-    let _ = std::fs::rename(&tmpc, &cert_path);
-    // re-read what won the race so that all processes agree
-    let der = std::fs::read(&cert_path).unwrap();
-    let pem = std::fs::read(&key_path).unwrap();
-    (
-        X509::from_der(&der).unwrap(),
-        PrivateKey::from_pem(&pem).unwrap(),
-    )
+    // serialise generation across processes: one writer, everybody else re-reads
+    let lock_path = dir.join(".identity.lock");
+    let lock = std::fs::OpenOptions::new()
+        .create(true)
+        .write(true)
+        .truncate(false)
+        .open(&lock_path)
+        .expect("pki lock file");
+    {
+        use std::os::unix::io::AsRawFd;
+        unsafe {
+            libc::flock(lock.as_raw_fd(), libc::LOCK_EX);
+        }
+    }
+    let result = (|| {
+        if let (Ok(der), Ok(pem)) = (std::fs::read(&cert_path), std::fs::read(&key_path)) {
+            if let (Ok(c), Ok(k)) = (X509::from_der(&der), PrivateKey::from_pem(&pem)) {
+                return (c, k);
+            }
+        }
+        let data = X509Data {
+            key_size: bits,
+            common_name: name.to_string(),
+            organization: "verif".into(),
+            organizational_unit: "verif".into(),
+            country: "IE".into(),
+            state: "Dublin".into(),
+            alt_host_names: vec![
+                format!("urn:verif:{}", name),
+                "localhost".into(),
+                "127.0.0.1".into(),
+            ],
+            certificate_duration_days: duration_days,
+        };
+        let (cert, key) = X509::cert_and_pkey(&data).expect("cert generation");
+        let tmpc = dir.join(format!(".tmp_{}_{}.der", std::process::id(), name));
+        let tmpk = dir.join(format!(".tmp_{}_{}.pem", std::process::id(), name));
+        std::fs::write(&tmpk, key.private_key_to_pem().unwrap()).unwrap();
+        std::fs::write(&tmpc, cert.to_der().unwrap()).unwrap();
+        std::fs::rename(&tmpk, &key_path).unwrap();
+        std::fs::rename(&tmpc, &cert_path).unwrap();
+        (cert, key)
+    })();
+    {
+        use std::os::unix::io::AsRawFd;
+        unsafe {
+            libc::flock(lock.as_raw_fd(), libc::LOCK_UN);
+        }
+    }
+    result
 }
 
 /// A certificate store rooted at `dir` whose own certificate and key are the given identity.
